@@ -41,17 +41,28 @@ func genGroup(c *cf.Case, r *cf.Rng, prop string) {
 	cfg.X = map[string]int{"initialRebalanceDelayMs": r.Pick(0, 0, 30)}
 	maxT, maxP := 2, 6
 	if storm {
-		maxT, maxP = 3, 8
+		maxT, maxP = r.Pick(3, 3, 5), 8
 	}
 	clusterBasic(c, r, 3, maxT, maxP)
-	// At most 8 partitions in total: sarama keeps one pointer-keyed map entry per partition consumer and
+	if storm && r.Bool() {
+		// many partitions need all three brokers (8 partitions per broker at most)
+		c.Cluster.Brokers = []int32{1, 2, 3}
+	}
+	// At most 8 partitions per broker: sarama keeps one pointer-keyed map entry per partition consumer and
 	// broker; beyond 8 entries Go maps iterate in an order that depends on heap addresses, which are not
-	// a function of the case file (replay would not be exact).
+	// a function of the case file (replay would not be exact). Leaders are spread round-robin and the
+	// group generators inject no leader moves, so the bound holds for the whole run.
+	nbk := len(c.Cluster.Brokers)
 	total := 0
 	for ti := range c.Cluster.Topics {
 		t := &c.Cluster.Topics[ti]
-		if total+len(t.Partitions) > 8 {
-			t.Partitions = t.Partitions[:8-total]
+		if total+len(t.Partitions) > 6*nbk {
+			t.Partitions = t.Partitions[:6*nbk-total] // leaves room for two partitions added during the run
+		}
+		for pi := range t.Partitions {
+			l := int32(1 + (total+pi)%nbk)
+			t.Partitions[pi].Leader = l
+			t.Partitions[pi].Replicas = []int32{l}
 		}
 		total += len(t.Partitions)
 	}
@@ -98,7 +109,7 @@ func genGroup(c *cf.Case, r *cf.Rng, prop string) {
 	}
 	nm := r.Range(1, 3)
 	if storm {
-		nm = r.Range(1, 5)
+		nm = r.Range(1, 6)
 	}
 	end := int64(r.Range(300000, 1500000))
 	if storm {
@@ -139,6 +150,7 @@ func genGroup(c *cf.Case, r *cf.Rng, prop string) {
 	if r.Intn(3) != 0 {
 		nf = r.Range(1, 4)
 	}
+	adds := 0
 	for i := 0; i < nf; i++ {
 		f := cf.Fault{}
 		switch k := r.Intn(14); {
@@ -158,10 +170,10 @@ func genGroup(c *cf.Case, r *cf.Rng, prop string) {
 		case k < 11:
 			f.When = cf.When{AtUs: int64(r.Range(1000, int(end)))}
 			f.Do, f.Topic = "part-add", topics[r.Intn(len(topics))]
-			if total >= 8 {
+			if adds >= 2 {
 				f.Do = "part-del"
 			} else {
-				total++
+				adds++
 			}
 			if storm && r.Intn(3) == 0 {
 				f.Do = "part-del" // the topic was re-created with fewer partitions
